@@ -135,6 +135,22 @@ class Frame:
         self.locals[name] = value
 
 
+def mangle(fr, name):
+    """Private name mangling, as CPython's compiler does it: inside a class body `__x` (two leading underscores,
+    not ending in two) denotes `_Class__x`, Class being the innermost enclosing class with leading underscores
+    stripped.  The ASTs pyvc executes are unmangled, so attribute loads / stores / deletes apply it here."""
+    if not (name.startswith("__") and not name.endswith("__")):
+        return name
+    f = fr
+    while f is not None:
+        cq = getattr(getattr(f.fn, "ref", None), "cls_qual", None) if f.fn is not None else None
+        if cq:
+            cls = cq.split(".")[-1].lstrip("_")
+            return f"_{cls}{name}" if cls else name
+        f = f.parent
+    return name
+
+
 LOG_NAMES = {"logger", "LOGGER", "log"}
 PURE_REAL_OK = (str, bytes, int, float, bool, tuple, frozenset, type(None), enum.Enum)
 
@@ -169,6 +185,20 @@ def and_mask_formula(x, m):
             total = total + ((x // (1 << lo)) % (1 << (k - lo))) * (1 << lo)
         else:
             k += 1
+    return total
+
+
+def or_within_mask(x, y, M):
+    """x | y for ints x, y where y has no bits outside the constant mask M >= 0 (0 <= y, y & ~M == 0), in integer
+    arithmetic; dual use (symbolic or plain ints); cross-checked against CPython's | by the static check
+    `bit-formulas-agree-with-cpython` of contracts/C18_colours.py."""
+    total = x - and_mask_formula(x, M)
+    k = 0
+    while (1 << k) <= M:
+        if M >> k & 1:
+            xb, yb = (x // (1 << k)) % 2, (y // (1 << k)) % 2
+            total = total + (1 << k) * (xb + yb - xb * yb if isinstance(xb, int) and isinstance(yb, int) else imax(xb, yb))
+        k += 1
     return total
 
 
@@ -352,9 +382,9 @@ class Interp:
             self.assign_target(st, t, self.binop(st, s.op, cur, rhs), fr)
         elif isinstance(t, ast.Attribute):
             obj = self.eval(st, t.value, fr)
-            cur = self.getattr(st, obj, t.attr, fr)
+            cur = self.getattr(st, obj, mangle(fr, t.attr), fr)
             rhs = self.eval(st, s.value, fr)
-            self.setattr(st, obj, t.attr, self.binop(st, s.op, cur, rhs), fr)
+            self.setattr(st, obj, mangle(fr, t.attr), self.binop(st, s.op, cur, rhs), fr)
         elif isinstance(t, ast.Subscript):
             obj = self.eval(st, t.value, fr)
             idx = self.eval_index(st, t.slice, fr)
@@ -388,7 +418,7 @@ class Interp:
                 self.assign_target(st, e, x, fr)
         elif isinstance(t, ast.Attribute):
             obj = self.eval(st, t.value, fr)
-            self.setattr(st, obj, t.attr, v, fr)
+            self.setattr(st, obj, mangle(fr, t.attr), v, fr)
         elif isinstance(t, ast.Subscript):
             obj = self.eval(st, t.value, fr)
             idx = self.eval_index(st, t.slice, fr)
@@ -514,7 +544,7 @@ class Interp:
             elif isinstance(t, ast.Attribute):
                 obj = self.eval(st, t.value, fr)
                 if isinstance(obj, SObj):
-                    obj.fields.pop(t.attr, None)
+                    obj.fields.pop(mangle(fr, t.attr), None)
                 else:
                     raise Unsupported("del attribute")
             else:
@@ -1068,7 +1098,29 @@ class Interp:
             x, m = (b, a) if isinstance(a, int) else (a, b)
             if m >= 0:
                 return and_mask_formula(x, m)
-        if t is ast.BitOr:
+        if t is ast.BitAnd and (isinstance(a, int) or isinstance(b, int)):
+            # x & m for a constant m < 0 (`value & ~MASK`): m = ~M with M >= 0, and x & ~M = x - (x & M) for every int x
+            x, m = (b, a) if isinstance(a, int) else (a, b)
+            return x - and_mask_formula(x, ~m)
+        or_masks = getattr(getattr(self.task, "c", None), "or_masks", None)  # opt-in (a contract attribute)
+        if or_masks is not None and t is ast.BitOr and (isinstance(a, int) or isinstance(b, int)):
+            # x | m for a constant m >= 0: x | m = x + m - (x & m) for every int x
+            x, m = (b, a) if isinstance(a, int) else (a, b)
+            if m >= 0:
+                return x + m - and_mask_formula(x, m)
+        if or_masks is not None and t is ast.BitOr:
+            # x | y where y provably has no bits outside a constant mask M the contract names (`or_masks`):
+            # x | y = (x - (x & M)) + sum over the bits b of M of 2^b * max(bit_b(x), bit_b(y)), bit_b(z) = (z // 2^b) % 2
+            for M in or_masks:
+                for x, y in ((a, b), (b, a)):
+                    inside = both(V._cmp(">=", y, 0), V._cmp("==", y, and_mask_formula(y, M)))
+                    if inside is False:
+                        continue
+                    if inside is not True:
+                        r, _m = st._check(z3.Not(V._zb(inside)), st.cfg.branch_timeout_ms)
+                        if r != z3.unsat:
+                            continue
+                    return or_within_mask(x, y, M)
             for k in (6, 12, 18, 8, 16, 4, 2, 1, 24, 7, 9, 10, 32):
                 for x, y in ((a, b), (b, a)):
                     cond = both(V._cmp("==", x % (1 << k), 0) if not isinstance(x, int) else x % (1 << k) == 0, V._cmp(">=", y, 0), V._cmp("<", y, 1 << k), V._cmp(">=", x, 0))
@@ -1281,7 +1333,7 @@ class Interp:
     # ---- attribute / subscripts
     def e_Attribute(self, st, e, fr):
         obj = self.eval(st, e.value, fr)
-        return self.getattr(st, obj, e.attr, fr)
+        return self.getattr(st, obj, mangle(fr, e.attr), fr)
 
     def getattr(self, st, obj, name, fr=None):
         obj = st.force(obj)
